@@ -17,7 +17,7 @@ import (
 // internalprobing.Parse + Prober.Probe. TraceProbing.tla computes the expected verdict from the abstract row.
 
 type c17Entry struct {
-	Kind  string   `json:"kind"`  // none | match | mismatch
+	Kind  string   `json:"kind"`  // none | match | mismatch | groupMismatch
 	Label string   `json:"label"` // none | match | mismatch | notexists (only a negative requirement: key "skip" DoesNotExist)
 	Subs  []string `json:"subs"`  // condA | condB | fields | cel | celNonBool
 }
@@ -42,6 +42,8 @@ func c17Concrete(es []c17Entry) []corev1alpha1.ObjectSetProbe {
 			p.Selector.Kind = &corev1alpha1.PackageProbeKindSpec{Group: gvkWidget.Group, Kind: "Widget"}
 		case "mismatch":
 			p.Selector.Kind = &corev1alpha1.PackageProbeKindSpec{Group: gvkWidget.Group, Kind: "Gadget"}
+		case "groupMismatch": // the same kind name in another API group
+			p.Selector.Kind = &corev1alpha1.PackageProbeKindSpec{Group: "other." + gvkWidget.Group, Kind: "Widget"}
 		}
 		switch e.Label {
 		case "match":
@@ -139,7 +141,7 @@ func c17Entries() []c17Entry {
 	subsets := [][]string{{}, {"condA"}, {"condB"}, {"fields"}, {"cel"}, {"condA", "fields"}, {"condA", "condB"}, {"cel", "condA", "fields"}, {"celNonBool"}, {"celEmpty"}, {"celEmpty", "fields"},
 		{"fieldsEmpty"}, {"fieldsDots"}, {"fieldsEmptySeg"}, {"fieldsEmpty", "condA"}, {"unknown"}, {"unknown", "condA"}}
 	var out []c17Entry
-	for _, k := range []string{"none", "match", "mismatch"} {
+	for _, k := range []string{"none", "match", "mismatch", "groupMismatch"} {
 		for _, l := range []string{"none", "match", "mismatch", "notexists"} {
 			for _, s := range subsets {
 				out = append(out, c17Entry{k, l, s})
